@@ -21,25 +21,26 @@ Open Scope string_scope.
 
 (* WITH SOURCE TEXT: whatever the type and however deep the nesting of structs, maps, sequences, tuples,
    options, newtypes and enum variants, the span of the error is the span of the INNERMOST offending
-   node — the leaf of the wrong type / out of range, the table lacking a field, the array of the wrong
-   length — or of the offending KEY (unknown variant, unknown field).  Not claimed for the Date / Time
-   kind check (C15_de_date_kind_refuted) and for the paths the value model does not follow. *)
+   node — the leaf of the wrong type / out of range, the date-time of the wrong kind, the table lacking
+   a field, the array of the wrong length — or of the offending KEY (unknown variant, unknown field).
+   The one exception: the kind check of a Date / Time that is the very node de_loc was called on
+   (`Date::deserialize` raises it after the deserializer returned, and nobody handed that node out).
+   Not claimed for the paths the value model does not follow. *)
 Theorem C15_de_located : forall c t s e,
-  opt_overwrite c = false -> all_spans s = true -> de_loc c t s = LErr e ->
-  e_kind e <> KDtKind -> e_kind e <> KUnmodelled ->
-  exists sp, e_span e = Some sp /\ locate s (e_at e) (e_onkey e) = Some (Some sp).
+  opt_overwrite c = false -> all_spans s = true -> de_loc c t s = LErr e -> e_kind e <> KUnmodelled ->
+  (exists sp, e_span e = Some sp /\ locate s (e_at e) (e_onkey e) = Some (Some sp)) \/
+  (e_kind e = KDtKind /\ e_at e = [] /\ e_span e = None).
 Proof. exact de_located. Qed.
 Print Assumptions C15_de_located.
 
-(* a Date / Time fed another kind of date-time inside an array (or as the payload of a newtype
-   variant): the error carries the span of the whole array, not of the element — the mismatch is raised
-   by Date::deserialize after the element's deserializer returned, and ArraySeqAccess::next_element_seed
-   attaches nothing.  Witness: v = [1979-05-27, 1979-05-27T07:32:00Z] as Vec<Date>. *)
-Theorem C15_de_date_kind_refuted :
-  exists t s e, all_spans s = true /\ de_loc cfg0 t s = LErr e /\ e_kind e = KDtKind /\
-                locate s (e_at e) (e_onkey e) = Some (Some (17, 37)%N) /\ e_span e = Some (4, 38)%N.
-Proof. exact date_kind_refuted. Qed.
-Print Assumptions C15_de_date_kind_refuted.
+(* every access that hands a node out (next_value_seed, next_element_seed, newtype_variant_seed,
+   deserialize_option, deserialize_newtype_struct) attaches the node's span to an error without one:
+   seen from there every error is located, the Date / Time kind check included *)
+Theorem C15_de_located_handed_out : forall c t s e,
+  opt_overwrite c = false -> all_spans s = true -> wrap (span_of s) (de_loc c t s) = LErr e -> e_kind e <> KUnmodelled ->
+  exists sp, e_span e = Some sp /\ locate s (e_at e) (e_onkey e) = Some (Some sp).
+Proof. exact de_located_handed_out. Qed.
+Print Assumptions C15_de_located_handed_out.
 
 (* WITHOUT SOURCE TEXT: no span, and the key path lists exactly the keys of the struct fields and map
    entries on the way to the offending node *)
@@ -98,3 +99,18 @@ Proof. exact deny_example. Qed.
 
 Example C15_enum_payload_span : exists e, de_loc cfg0 t_senum2 w_enum = LErr e /\ e_span e = Some (10, 13)%N.
 Proof. exact enum_span_ok. Qed.
+
+(* the former finding C15-de-datekind-span-outer, repaired: v = [1979-05-27, 1979-05-27T07:32:00Z] as
+   Vec<Date> and e = { N = 07:32:00 } as N(Date) carry the span of the offending date-time *)
+Example C15_date_kind_in_array :
+  exists e, all_spans w_dates = true /\ de_loc cfg0 t_vdate w_dates = LErr e /\ e_kind e = KDtKind /\
+            locate w_dates (e_at e) (e_onkey e) = Some (Some (17, 37)%N) /\ e_span e = Some (17, 37)%N.
+Proof. exact date_kind_located. Qed.
+Example C15_date_kind_in_variant :
+  exists e, de_loc cfg0 t_e3n w_e3n = LErr e /\ e_kind e = KDtKind /\ e_span e = Some (10, 18)%N.
+Proof. exact date_kind_variant_located. Qed.
+(* the corner C15_de_located leaves open is real: a Date deserialized directly from a value *)
+Example C15_date_kind_at_the_root :
+  exists e, de_loc cfg0 (TDatetime KDate) (NLeaf (Some (0, 20)%N) (VDatetime dt_offset)) = LErr e /\
+            e_kind e = KDtKind /\ e_at e = [] /\ e_span e = None.
+Proof. exact date_kind_root. Qed.
